@@ -1387,3 +1387,11 @@ package avro
 //@   requires item != nil
 //@   ensures [C15] (rkind(typedesc(tag(item))) != 25 && !(rkind(typedesc(tag(item))) == 22 && rkind(relem(typedesc(tag(item)))) == 25)) ==> err != nil
 //@   modifies type sync.RWMutex, heap cell:github.com/philpearl/avro.Schema.Type.base, heap cell:github.com/philpearl/avro.Schema.Type.off, heap cell:github.com/philpearl/avro.Schema.Type.len
+
+// general unions cannot be written: the method panics unconditionally (known finding of C13/C02: a codec for such a
+// schema can be built, but writing through it crashes)
+//@ func (*unionCodec).Write
+//@   implements Codec.Write
+//@   props C13, C02
+//@   requires w != nil
+//@   modifies w.buf, BH[w.buf]
